@@ -62,6 +62,8 @@ def decodeTime (b : Bytes) : Res (Int × Int) :=
     | [sg, h1, h2, m1, m2] =>
       match parseDigits [h1, h2], parseDigits [m1, m2] with
       | some hh, some mm =>
+        -- `time.Parse("-0700", …)`: "time zone offset hour / minute out of range"
+        if hh > 24 || mm > 60 then .err "time-zone" else
         if sg == 43 then .ok (sec, ((hh * 60 + mm) * 60 : Nat))
         else if sg == 45 then .ok (sec, -(((hh * 60 + mm) * 60 : Nat) : Int))
         else .err "time-zone"
